@@ -95,6 +95,27 @@ func parseCase(id interface{}, c rawCase) map[string]interface{} {
 			}
 		}
 		res["entries"] = ents
+		if _, bad := res["err"]; !bad && getInt(c, "scribble") != 1 {
+			// two iterations of the same tree at once (a pairwise comparison of its entries), then one more afterwards
+			drain := func(it *git.TreeIter) int {
+				k := 0
+				for {
+					_, ok, err := it.NextEntry()
+					if err != nil || !ok || k > len(data)+1 {
+						return k
+					}
+					k++
+				}
+			}
+			itA := t.Iter()
+			nA := 0
+			if _, ok, err := itA.NextEntry(); err == nil && ok {
+				nA = 1
+			}
+			nB := drain(t.Iter())
+			nA += drain(itA)
+			res["interleaved"] = []int{nA, nB, drain(t.Iter())}
+		}
 	case "commit":
 		cm, err := git.ParseCommit(oid, data)
 		if err != nil {
